@@ -17,7 +17,7 @@ RULE = ("stratified + seeded random (configuration, sample) pairs; non-trivial =
         "(so that products do not collapse to powers) or finite N with the null mean moving; distinct = hash of "
         "(kind, configuration, sample)")
 REQUIRED = [f"ref_compared:{nn.label({'test': a, 'estim': b, 'bet': c})}" for a, b, c in nn.COMBOS] + \
-           ["equiv_compared", "inverse_checked", "entries_eq", "entries_boundary", "stratum:nondyadic_boundary_neighbourhood"]
+           ["equiv_compared", "inverse_checked", "entries_eq", "entries_boundary", "stratum:nondyadic_boundary_neighbourhood", "stratum:early_wins_then_zeros_to_census"]
 ASSUMPTIONS = ["eta_j and lambda_j are taken from the real estimator/bet (their ranges are C13's business)",
                "boundary-index conventions of DESIGN.md C12: at the index where the total first exceeds N t either the "
                "product value or 0 is accepted; where mu_j is within the code's tolerances of 0 or u either the product "
@@ -45,6 +45,15 @@ def run_shard(spec, rec):
                 if y:
                     st, x = "nondyadic_boundary_neighbourhood", y
                     rec.count("stratum:nondyadic_boundary_neighbourhood")
+            if i % 10 == 5 and cfg["N"] != "inf":
+                cfg["N"] = rng.choice((12, 24, 30))
+                cfg["t"] = rng.choice((0.125, 0.25))
+                if cfg["kw"].get("eta") is not None:
+                    cfg["kw"]["eta"] = (cfg["t"] + cfg["u"]) / 2
+                y = nn.gen_early_wins_census(rng, cfg)
+                if y:
+                    st, x = "early_wins_then_zeros_to_census", y
+                    rec.count("stratum:early_wins_then_zeros_to_census")
             if not nn.in_domain(cfg, x):
                 continue
             run_case({"kind": "ref", "cfg": cfg, "x": x, "stratum": st}, rec)
